@@ -306,9 +306,9 @@ def P12():
         calibration=[],
         update={"s": s_ + X.sin(a) * dt + a * b * dt, "r": r * s_ + b * b * dt},
         process_noise={"b": 0.5, "a": 0.25},
-        sensors={"prod": {"m": s_ * r}, "lin": {"n": s_ + 2 * r}},
-        sensor_noise={"prod": {"m": 0.5}, "lin": {"n": 0.25}},
-        note="V depends on controls only; sensor 'prod' is bilinear (second derivatives w.r.t. each state vanish), 'lin' is linear",
+        sensors={"prod": {"m": s_ * r}, "lin": {"n": s_ + 2 * r}, "drag": {"f": r * X.sqrt(r * r)}},
+        sensor_noise={"prod": {"m": 0.5}, "lin": {"n": 0.25}, "drag": {"f": 0.75}},
+        note="V depends on controls only; sensor 'prod' is bilinear (second derivatives w.r.t. each state vanish), 'lin' is linear, 'drag' has a nested power sqrt(r^2) in its Jacobian",
     )
 
 
@@ -329,12 +329,50 @@ def P13():
     )
 
 
+def P14():
+    """Bilinear in state and control: the process Jacobian contains NO state symbol but depends on the controls;
+    the control Jacobian depends on the state."""
+    lv, m2, v, w, dt = V("lv"), V("m2"), V("v"), V("w"), V("dt")
+    return Program(
+        id="P14-bilinear",
+        state=["m2", "lv"],
+        control=["w", "v"],
+        calibration=[],
+        update={"lv": lv - v * lv * dt, "m2": m2 + w * lv * dt + v * m2 * dt},
+        process_noise={"w": 0.5, "v": 0.25},
+        sensors={"lvl": {"s": lv + m2, "h": lv * m2}},
+        sensor_noise={"lvl": {"s": 0.5, "h": 0.25}},
+        note="G = [[1 - v dt, 0], [w dt, 1 + v dt]] (no state symbols), V depends on the state",
+    )
+
+
+def P15():
+    """State names x0, x1, x2 (what sympy's cse() would call its temporaries by default) with enough shared
+    sub-expressions that several temporaries are extracted."""
+    x0, x1, x2, u, dt = V("x0"), V("x1"), V("x2"), V("u"), V("dt")
+    s_ = x0 + x1
+    s2 = s_ * s_
+    t = X.sin(s2)
+    c = X.cos(x2 * s_)
+    return Program(
+        id="P15-xnames",
+        state=["x1", "x2", "x0"],
+        control=["u"],
+        calibration=[],
+        update={"x0": x0 + dt * s2 * t + c * u * dt, "x1": x1 * t + s2 * c * dt, "x2": x2 + (s2 + 1) * c + t * t * dt},
+        process_noise={"u": 0.5},
+        sensors={"v3": {"x1": s2 * t, "x0": c + x2}},
+        sensor_noise={"v3": {"x1": 0.5, "x0": 0.25}},
+        note="vector-component style names x0..x2; many shared sub-expressions",
+    )
+
+
 def quick_programs():
     return [P1(), P3(), P8()]
 
 
 def all_fixed():
-    return [P1(), P2(), P3(), P7(), P8(), P10(), P12(), P13()]
+    return [P1(), P2(), P3(), P7(), P8(), P10(), P12(), P13(), P14(), P15()]
 
 
 def with_noise(p, process=None, sensor=None, pid=None):
